@@ -1,3 +1,8 @@
+pub mod dump;
 pub mod engine;
+pub mod interp;
 pub mod known;
+pub mod ops;
 pub mod props;
+pub mod val;
+pub mod world;
